@@ -109,6 +109,10 @@ fn run_check(id: &str, tier: &str) -> i32 {
     match id {
         "C01" => props::c01::run_c01(&rep),
         "C02" => props::c01::run_c02(&rep),
+        "C03" => props::c03::run_c03(&rep),
+        "C04" => props::c04::run_c04(&rep),
+        "C09" => props::c09::run_c09(&rep),
+        "C28" => props::c28::run_c28(&rep),
         _ => {
             eprintln!("no check for {}", id);
             2
